@@ -171,7 +171,10 @@ def apply_rewrites(rng: random.Random, s2: G.Schema, tag: str) -> Tuple[G.Schema
                 nb, nc = rng.randint(2, 9), rng.choice([2, 3, 4])
                 q = -((1 - nb) // nc)  # floor division of a negative, non-exact dividend
                 expr = rng.choice([f"{a.cap + x} - {x}", f"({a.cap} * 2) / 2", f"{a.cap} + 0 * 7", f"0x{a.cap:x}",
-                                   f"{a.cap + q} + (1 - {nb}) / {nc}"])
+                                   f"{a.cap + q} + (1 - {nb}) / {nc}",
+                                   # chains: left associativity and precedence decide the value
+                                   f"{a.cap + x + nb} - {x} - {nb}", f"{a.cap - x * nc if a.cap > x * nc else a.cap + 0} + {x if a.cap > x * nc else 0} * {nc}",
+                                   f"{a.cap * nc * 2} / {nc} / 2", f"{nb} * {nc} + {a.cap} - {nb * nc}", f"{a.cap + nb} - {nb * nc} / {nc}"])
                 if not any(getattr(d, "name", None) == cname for d in s2.defs):
                     cd = G.ConstDef(cname, a.cap, expr)
                     cd.home = s2
@@ -287,6 +290,10 @@ def check(run: common.Run, drv: common.Driver, rng: random.Random, tier: str) ->
                     cmods.append(("c", creal.CModule(sc, s1, t1, f"{s1.base()}"), creal.CModule(sc, s2, t2, f"{s2.base()}")))
                     if not _has_ext(s1) and not _has_ext(s2):
                         cmods.append(("c -O", creal.CModule(sc, s1, t1, f"{s1.base()}", optimize=True), creal.CModule(sc, s2, t2, f"{s2.base()}", optimize=True)))
+                        # the value-based statements of the big-endian branch do not depend on the host's byte order
+                        be = ("-O2", "-DBP_BIG_ENDIAN")
+                        cmods.append(("c -O (big-endian branch)", creal.CModule(sc, s1, t1, f"{s1.base()}", optimize=True, cflags=be),
+                                      creal.CModule(sc, s2, t2, f"{s2.base()}", optimize=True, cflags=be)))
                     run.count("pairs_compiled_to_c")
                 except Exception as e:
                     run.count("c_build_skipped:" + type(e).__name__)
